@@ -150,6 +150,16 @@ EvalX(e, row, outer, db) ==
          LET sub == EvalPlan(e.sub, row, db) IN
          IF sub.err \/ Len(sub.rows) > 1 THEN Err
          ELSE IF sub.rows = <<>> THEN Null ELSE sub.rows[1][1]
+    \* e <cmp> ANY / ALL (one-column subquery): Kleene disjunction / conjunction of the comparisons
+    [] e.op = "quant" ->
+         LET sub == EvalPlan(e.sub, row, db)
+             x == EvalX(e.e, row, outer, db) IN
+         IF sub.err \/ IsErr(x) THEN Err
+         ELSE LET cs == [i \in 1..Len(sub.rows) |-> Cmp(e.f, x, sub.rows[i][1])] IN
+              IF e.all THEN (IF \E i \in 1..Len(cs) : IsFalse(cs[i]) THEN FalseV
+                             ELSE IF \E i \in 1..Len(cs) : IsNull(cs[i]) THEN Null ELSE TrueV)
+              ELSE (IF \E i \in 1..Len(cs) : IsTrue(cs[i]) THEN TrueV
+                    ELSE IF \E i \in 1..Len(cs) : IsNull(cs[i]) THEN Null ELSE FalseV)
 
 \* keep rows whose predicate is TRUE; error if the predicate errs on any row
 FilterRows(rows, p, outer, db) ==
@@ -168,6 +178,31 @@ JoinRows(on, L, R, lw, rw, outer, db) ==
       rpad |-> Flatten([j \in 1..Len(R) |-> IF RMatched(j) THEN <<>> ELSE <<NullRow(lw) \o R[j]>>]),
       semi |-> Flatten([i \in 1..Len(L) |-> IF LMatches(i) # <<>> THEN <<L[i]>> ELSE <<>>]),
       anti |-> Flatten([i \in 1..Len(L) |-> IF LMatches(i) = <<>> THEN <<L[i]>> ELSE <<>>])]
+
+(* ---------------- window functions, DISTINCT ON, UNION of filters over one table ---------------- *)
+\* value of the window column for row i of `rows`:  f OVER (PARTITION BY part ORDER BY order) with the default frame
+\* (whole partition without ORDER BY; RANGE UNBOUNDED PRECEDING .. CURRENT ROW, i.e. including peers, with it)
+WinValue(p, rows, i) ==
+  LET r == rows[i]
+      samePart(j) == \A k \in 1..Len(p.part) : KeyEq(rows[j][p.part[k]], r[p.part[k]])
+      part == SelectSeq([j \in 1..Len(rows) |-> j], samePart)
+      before(j) == RowBefore(rows[j], r, p.order)
+      after(j) == RowBefore(r, rows[j], p.order)
+      frame == IF p.order = <<>> THEN part ELSE SelectSeq(part, LAMBDA j : ~after(j))
+      vals == [m \in 1..Len(frame) |-> IF p.arg = 0 THEN I(1) ELSE rows[frame[m]][p.arg]]
+      nbefore == Cardinality({j \in SeqToSet(part) : before(j)}) IN
+  CASE p.f = "rank" -> I(1 + nbefore)
+    [] p.f = "dense_rank" ->
+         I(1 + Cardinality({[k \in 1..Len(p.order) |-> rows[j][p.order[k].i]] : j \in {j2 \in SeqToSet(part) : before(j2)}}))
+    [] p.f = "row_number" ->   \* generated only with an ORDER BY over all columns: peers are identical rows
+         I(1 + nbefore + Cardinality({j \in SeqToSet(part) : j < i /\ ~before(j) /\ ~after(j)}))
+    [] OTHER -> AggValue(p.f, FALSE, vals, Len(frame))
+
+\* [op |-> "ufilter", t, ps, all]: (SELECT * FROM t WHERE ps[1]) UNION [ALL] (SELECT * FROM t WHERE ps[2]) UNION [ALL] ...
+RECURSIVE UFilterTree(_, _)
+UFilterTree(p, k) ==
+  LET br == [op |-> "filter", p |-> p.ps[k], src |-> [op |-> "scan", t |-> p.t]] IN
+  IF k = 1 THEN br ELSE [op |-> "setop", f |-> "union", all |-> p.all, l |-> UFilterTree(p, k - 1), r |-> br]
 
 EvalPlan(p, outer, db) ==
   CASE p.op = "scan" -> OkRel(db[p.t])
@@ -220,6 +255,49 @@ EvalPlan(p, outer, db) ==
                 \* recognise that known defect; never generated.
                 [] p.f = "intersectS" -> OkRel(SelectSeq(sl.rows, LAMBDA x : x \in SeqToSet(sr.rows)))
                 [] p.f = "exceptS" -> OkRel(SelectSeq(sl.rows, LAMBDA x : x \notin SeqToSet(sr.rows))))
+    \* [op |-> "window", f, part |-> <<col..>>, order |-> <<[i, asc, nf]..>>, arg |-> col or 0, src]: src columns + the window column
+    [] p.op = "window" ->
+         LET s == EvalPlan(p.src, outer, db) IN
+         IF s.err THEN ErrRel ELSE OkRel([i \in 1..Len(s.rows) |-> Append(s.rows[i], WinValue(p, s.rows, i))])
+    \* [op |-> "lateral", jt |-> "inner"|"left", l, r, lw, rw]: r is evaluated once per row of l, with that row as its outer row
+    [] p.op = "lateral" ->
+         LET l == EvalPlan(p.l, outer, db) IN
+         IF l.err THEN ErrRel
+         ELSE LET rs == [i \in 1..Len(l.rows) |-> EvalPlan(p.r, l.rows[i], db)] IN
+              IF \E i \in 1..Len(rs) : rs[i].err THEN ErrRel
+              ELSE OkRel(Flatten([i \in 1..Len(l.rows) |->
+                     IF rs[i].rows = <<>> THEN (IF p.jt = "left" THEN <<l.rows[i] \o NullRow(p.rw)>> ELSE <<>>)
+                     ELSE [k \in 1..Len(rs[i].rows) |-> l.rows[i] \o rs[i].rows[k]]]))
+    \* [op |-> "aggsets", keys, sets |-> <<set of key indices,..>>, aggs, src]: GROUP BY GROUPING SETS (...); keys outside a set are NULL
+    [] p.op = "aggsets" ->
+         LET s == EvalPlan(p.src, outer, db) IN
+         IF s.err THEN ErrRel
+         ELSE LET keyOf == [i \in 1..Len(s.rows) |-> [k \in 1..Len(p.keys) |-> EvalX(p.keys[k], s.rows[i], outer, db)]]
+                  argOf == [i \in 1..Len(s.rows) |-> [a \in 1..Len(p.aggs) |->
+                               IF p.aggs[a].f = "countstar" THEN I(1) ELSE EvalX(p.aggs[a].e, s.rows[i], outer, db)]]
+                  bad == \E i \in 1..Len(s.rows) : AnyErr(keyOf[i]) \/ AnyErr(argOf[i])
+                  masked(gs) == [i \in 1..Len(s.rows) |-> [k \in 1..Len(p.keys) |-> IF k \in gs THEN keyOf[i][k] ELSE Null]]
+                  rowsFor(gs) ==
+                    LET mk == masked(gs)
+                        groups == IF gs = {} THEN <<[k \in 1..Len(p.keys) |-> Null]>> ELSE DedupSeq(mk)
+                        members(g) == SelectSeq([i \in 1..Len(s.rows) |-> i], LAMBDA i : mk[i] = g) IN
+                    [g \in 1..Len(groups) |-> groups[g] \o [a \in 1..Len(p.aggs) |->
+                        AggValue(p.aggs[a].f, p.aggs[a].distinct,
+                                 [m \in 1..Len(members(groups[g])) |-> argOf[members(groups[g])[m]][a]], Len(members(groups[g])))]]
+              IN IF bad THEN ErrRel ELSE OkRel(Flatten([k \in 1..Len(p.sets) |-> rowsFor(p.sets[k])]))
+    \* [op |-> "distincton", n, src]: DISTINCT ON (first n columns) with ORDER BY all columns ASC NULLS LAST: first row per key
+    [] p.op = "distincton" ->
+         LET s == EvalPlan(p.src, outer, db) IN
+         IF s.err THEN ErrRel
+         ELSE IF s.rows = <<>> THEN OkRel(<<>>)
+         ELSE LET w == Len(s.rows[1])
+                  sorted == SortRows(s.rows, [i \in 1..w |-> [i |-> i, asc |-> TRUE, nf |-> FALSE]])
+                  sameKey(a, b) == \A k \in 1..p.n : KeyEq(a[k], b[k]) IN
+              LET firsts == SelectSeq([i \in 1..Len(sorted) |-> i], LAMBDA i : \A j \in 1..(i - 1) : ~sameKey(sorted[j], sorted[i])) IN
+              OkRel([k \in 1..Len(firsts) |-> sorted[firsts[k]]])
+    \* [op |-> "pack", src]: the SQL rendering packs the columns into one struct column that parents read by field access: identity here
+    [] p.op = "pack" -> EvalPlan(p.src, outer, db)
+    [] p.op = "ufilter" -> EvalPlan(UFilterTree(p, Len(p.ps)), outer, db)
     [] p.op = "sort" ->
          LET s == EvalPlan(p.src, outer, db) IN IF s.err THEN ErrRel ELSE OkRel(SortRows(s.rows, p.keys))
     [] p.op = "limit" ->
@@ -249,6 +327,7 @@ AltExpr(e) ==
     [] e.op = "nullif" -> [e EXCEPT !.l = AltExpr(@), !.r = AltExpr(@)]
     [] e.op = "insub" -> [e EXCEPT !.e = AltExpr(@), !.sub = AltPlan(@)]
     [] e.op \in {"exists", "scalarsub"} -> [e EXCEPT !.sub = AltPlan(@)]
+    [] e.op = "quant" -> [e EXCEPT !.e = AltExpr(@), !.sub = AltPlan(@)]
     [] OTHER -> e
 AltPlan(p) ==
   CASE p.op = "scan" -> p
@@ -257,7 +336,11 @@ AltPlan(p) ==
     [] p.op = "join" -> [p EXCEPT !.on = AltExpr(@), !.l = AltPlan(@), !.r = AltPlan(@)]
     [] p.op = "agg" -> [p EXCEPT !.keys = AltSeq(@), !.src = AltPlan(@),
                                  !.aggs = [i \in 1..Len(@) |-> [@[i] EXCEPT !.e = AltExpr(@)]]]
-    [] p.op \in {"distinct", "sort", "limit"} -> [p EXCEPT !.src = AltPlan(@)]
+    [] p.op \in {"distinct", "sort", "limit", "window", "distincton", "pack"} -> [p EXCEPT !.src = AltPlan(@)]
+    [] p.op = "lateral" -> [p EXCEPT !.l = AltPlan(@), !.r = AltPlan(@)]
+    [] p.op = "aggsets" -> [p EXCEPT !.keys = AltSeq(@), !.src = AltPlan(@),
+                                     !.aggs = [i \in 1..Len(@) |-> [@[i] EXCEPT !.e = AltExpr(@)]]]
+    [] p.op = "ufilter" -> p
     [] p.op = "setop" -> [p EXCEPT !.l = AltPlan(@), !.r = AltPlan(@),
                                    !.f = IF p.all /\ p.f = "intersect" THEN "intersectS"
                                          ELSE IF p.all /\ p.f = "except" THEN "exceptS" ELSE @]
